@@ -543,9 +543,9 @@ def vmap_check(ck, n):
             c["grid"] = [Fr(i, 64) for i in range(0, 6)]
         cases.append(c)
         runs.append(c)
-        if adaptive:
-            twins[g] = len(runs)
-            runs.append(dict(twin_of(ck.rng, c), singles_only=True))
+        # batched linear algebra (QR, triangular solves) runs other kernels than the unbatched one: a twin for every case
+        twins[g] = len(runs)
+        runs.append(dict(twin_of(ck.rng, c), singles_only=True))
     res = yield runs
     ratios = []
     k = 0
@@ -601,13 +601,12 @@ def vmap_check(ck, n):
                     continue
                 metric = (lambda x, y: dev_mean(x, y, sdev)) if what == "mean" else dev_scale if what == "output_scale" else rel_diff  # noqa: E731
                 w = metric(a, b)
-                noise = 0.0
-                if c["routine"] == "adaptive":
-                    noise = metric(a, np.asarray(tw[what], dtype=float)) if tw is not None else float("inf")
-                    if what == "mean":
-                        note_noise(ck, "vmap", noise)
+                noise = metric(a, np.asarray(tw[what], dtype=float)) if tw is not None else float("inf")
+                if what == "mean":
+                    note_noise(ck, "vmap", noise)
                 track(f"vmap {c['routine']} {what}", w)
-                if not w <= allowance(c, 1e-10 if what == "mean" else 1e-8, noise):
+                base = 1e-10 if what == "mean" else 1e-8
+                if not w <= (base + KTWIN * noise if c["routine"] == "fixed_grid" else allowance(c, base, noise)):
                     idx = np.unravel_index(np.nanargmax(np.abs(a - b)), a.shape)
                     bad = f"u.{what} differs (relative {w:.3g}, twin noise {noise:.3g}) at {tuple(int(x) for x in idx)}: single {a[idx]!r} vs vmap {b[idx]!r}"
             if bad:
@@ -624,8 +623,8 @@ def main():
     ck = lib.Check("C15")
     pr = ck.run_proof()
     quick = ck.tier == "quick"
-    phases = [pytree_check(ck, 16 if quick else 200), permutation_check(ck, 12 if quick else 150),
-              jit_check(ck, 6 if quick else 36), vmap_check(ck, 6 if quick else 60)]
+    phases = [pytree_check(ck, 20 if quick else 200), permutation_check(ck, 15 if quick else 150),
+              jit_check(ck, 6 if quick else 36), vmap_check(ck, 8 if quick else 60)]
     batches = [next(ph) for ph in phases]            # every phase first yields its runs ...
     allruns = [r for b in batches for r in b]
     res = run(allruns, 330 if quick else 6000)     # ... all runs are dispatched together ...
@@ -655,7 +654,7 @@ def main():
               "output_scale/num_steps equal (1e-12 on fixed grids), structure = caller's (isotropic u.std: one scalar per coefficient, as documented), "
               "leading axis = len(grid)/len(save_at); (ii) permutation of 2..4 components incl. per-dimension base scales: solution, covariance and "
               "per-dimension scales permuted (1e-10); (iii) jit vs jax.disable_jit() (1e-12 of |mean|+sd, 1e-9 of sd_i sd_j; identical num_steps); "
-              "(iv) jax.vmap over initial values and a stiffness parameter vs one at a time (means 1e-10 of |mean|+sd, std/scales 1e-8, NaN check, identical num_steps); adaptive batches "
+              "(iv) jax.vmap over initial values and a stiffness parameter vs one at a time (means 1e-10 of |mean|+sd, std/scales 1e-8, each + 50x the deviation of a rounding-size-perturbed twin; NaN check, identical num_steps); adaptive batches "
               "whose step counts differ by >= 5x are the non-trivial ones. Adaptive comparisons: identical num_steps, values within 1e-7 (exact initial condition; 1e-4 otherwise) + 50x the "
               "deviation of a rounding-size-perturbed twin run (conditioning of the adaptive solve); non-trivial: all others; distinct by full input",
               assumptions=lib.TRUSTED_BASE + ["C15 proof part is PARTIAL: jit and vmap equivalence are runtime properties of JAX/XLA that no Gallina model exhibits; "
